@@ -172,7 +172,7 @@ WB_LONG main(WB_LONG argc, WB_TINY **argv)
         /* Open XML document */
         input_file = fopen(argv[optind], "r");
         if (input_file == NULL) {
-            printf("Failed to open %s\n", argv[optind]);
+            fprintf(stderr, "Failed to open %s\n", argv[optind]);
             goto clean_up;
         }
     }
